@@ -1,7 +1,9 @@
 package main
 
 import (
+	"fmt"
 	"go/token"
+	"go/types"
 
 	"golang.org/x/tools/go/ssa"
 )
@@ -17,6 +19,94 @@ func (fr *Frame) onSend(ch *Val, v *Val, pos token.Pos)                   {}
 func (fr *Frame) onSelectCase(i *ssa.Select, idx int, ch *Val)            {}
 func (fr *Frame) onRangeNext(r *ssa.Range, n *ssa.Next, ok, k, v *Val)    {}
 func (fr *Frame) onClose(ch *Val, pos token.Pos)                          {}
-func (fr *Frame) onAcquire(id Term, write bool, pos token.Pos)            {}
-func (fr *Frame) onRelease(id Term, write bool, pos token.Pos)            {}
+
+// lockOwner resolves the mutex argument of a Lock/Unlock call to the object
+// that embeds (or points to) it: (object, named struct type, mutex field name).
+func (fr *Frame) lockOwner(arg ssa.Value) (*Val, *types.Named, string) {
+	if arg == nil {
+		return nil, nil, ""
+	}
+	if u, ok := arg.(*ssa.UnOp); ok && u.Op == token.MUL {
+		arg = u.X
+	}
+	fa, ok := arg.(*ssa.FieldAddr)
+	if !ok {
+		return nil, nil, ""
+	}
+	n := namedOf(fa.X.Type())
+	if n == nil {
+		return nil, nil, ""
+	}
+	st, ok := n.Underlying().(*types.Struct)
+	if !ok {
+		return nil, nil, ""
+	}
+	v, ok := fr.vals[fa.X]
+	if !ok {
+		v = fr.val(fa.X)
+	}
+	return v, n, st.Field(fa.Field).Name()
+}
+
+func (fr *Frame) lockInvs(n *types.Named, field string) []*LockInv {
+	if n == nil || n.Obj().Pkg() == nil {
+		return nil
+	}
+	pc := fr.vc.eng.contracts[n.Obj().Pkg().Path()]
+	if pc == nil {
+		return nil
+	}
+	var out []*LockInv
+	for _, li := range pc.LockInvs {
+		if li.Type == n.Obj().Name() && li.Mutex == field {
+			out = append(out, li)
+		}
+	}
+	return out
+}
+
+func (fr *Frame) lockInvEnv(obj *Val, n *types.Named) *SpecEnv {
+	k := 7000 + len(fr.vc.cmds)
+	entry := fr.entry
+	if entry == nil {
+		entry = fr.st
+	}
+	return &SpecEnv{fr: fr, vars: map[string]*Val{"self": obj}, cur: fr.st, old: entry, pkg: fr.vc.eng.spkgs[n.Obj().Pkg().Path()], nq: &k}
+}
+
+// onAcquire: the monitor invariant of the lock holds when it is acquired.
+func (fr *Frame) onAcquire(id Term, write bool, pos token.Pos) {
+	arg := fr.curLockArg
+	fr.curLockArg = nil
+	obj, n, field := fr.lockOwner(arg)
+	for _, li := range fr.lockInvs(n, field) {
+		t, err := fr.evalSpecBool(li.Clause.Expr, fr.lockInvEnv(obj, n))
+		if err != nil {
+			fr.vc.specError(fr, li.Clause, err)
+			continue
+		}
+		fr.vc.assume(fr.reach, t)
+	}
+}
+
+// onRelease: the monitor invariant must be re-established before a write lock is released.
+func (fr *Frame) onRelease(id Term, write bool, pos token.Pos) {
+	arg := fr.curLockArg
+	fr.curLockArg = nil
+	if !write {
+		return
+	}
+	obj, n, field := fr.lockOwner(arg)
+	for i, li := range fr.lockInvs(n, field) {
+		t, err := fr.evalSpecBool(li.Clause.Expr, fr.lockInvEnv(obj, n))
+		if err != nil {
+			fr.vc.specError(fr, li.Clause, err)
+			continue
+		}
+		p := fr.pos(pos)
+		src := fr.vc.eng.srcLine(p)
+		name := fmt.Sprintf("%s/lockinv#%d@Unlock#%s", relFuncName(fr.vc.fn), i+1, hash4(src))
+		fr.vc.oblige("lockinv", name, p, li.Clause.Text, fr.reach, t, li.Clause.Props)
+	}
+}
 func (fr *Frame) onCondWait(id Term, pos token.Pos)                       {}
